@@ -306,12 +306,12 @@ def handle (j : Json) : R Json := do
         let why := match req with
           | .change spec p => match changeVerdict predef env nb spec p with
             | .refuse c => "refuse " ++ nameOfCls c
-            | .admit m a hw _ w => s!"admit {m}.{a} write={hw} value={w}"
-            | .admitDo .. => "?"
+            | .allow m a hw _ w => s!"allow {m}.{a} write={hw} value={w}"
+            | .allowDo .. => "?"
           | .do_ spec d => match (doVerdict predef nb spec d : Verdict VV) with
             | .refuse c => "refuse " ++ nameOfCls c
-            | .admitDo m a arg => s!"admit {m}.{a} arg={arg}"
-            | .admit .. => "?"
+            | .allowDo m a arg => s!"allow {m}.{a} arg={arg}"
+            | .allow .. => "?"
           | .read .. => "read-only"
         bad := some (i, why)
       i := i + 1
